@@ -162,7 +162,11 @@ def _api_main():
             res["violations"] = sorted([v["code"], v["start_line_no"], v["start_line_pos"], v["description"], bool(v.get("warning"))] for v in vs)
         elif op == "fix":
             res["fixed"] = sqlfluff.fix(sql, config=cfg)
-        elif op == "model":
+        elif op in ("model", "model_format"):
+            if op == "model_format":
+                from vfw.props.fixcase import FORMAT_RULES
+
+                cfg = FluffConfig.from_path(rel, overrides={"rules": FORMAT_RULES + ","})
             # observations for the exit-code model (C22): one fix-mode lint through the Linter
             from sqlfluff.core.errors import SQLLintError, SQLParseError, SQLTemplaterError
 
